@@ -7,7 +7,7 @@ from __future__ import annotations
 import logging
 from typing import TYPE_CHECKING, Any, TypedDict
 
-from pyopenapi_gen.core.http_status_codes import get_exception_class_name
+from pyopenapi_gen.core.http_status_codes import get_exception_class_name, is_error_code
 from pyopenapi_gen.core.writers.code_writer import CodeWriter
 from pyopenapi_gen.helpers.endpoint_utils import (
     _get_primary_response,
@@ -482,17 +482,50 @@ class EndpointResponseHandlerGenerator:
                                 writer.write_line(f"return cast({response_type}, {data_expr})")
                         else:
                             writer.write_line("return None")
-                else:
+                elif is_error_code(status_code_val):
                     # Error responses - use human-readable exception names
                     error_class_name = get_exception_class_name(status_code_val)
                     context.add_import(f"{context.core_package_name}", error_class_name)
                     writer.write_line(f"raise {error_class_name}(response=response)")
+                else:
+                    # Declared 1xx/3xx: no alias class is generated for these, raise the base error
+                    context.add_import(f"{context.core_package_name}.exceptions", "HTTPError")
+                    writer.write_line(
+                        'raise HTTPError(response=response, message="Unexpected status code", '
+                        "status_code=response.status_code)"
+                    )
 
                 writer.dedent()
+
+        # Undeclared 4xx/5xx statuses must still surface as ClientError/ServerError (not the bare base class)
+        # when a transport hands a non-2xx response back instead of raising.
+        context.add_import(f"{context.core_package_name}.exceptions", "ClientError")
+        context.add_import(f"{context.core_package_name}.exceptions", "ServerError")
+        writer.write_line("case _ if 400 <= response.status_code < 500:")
+        writer.indent()
+        writer.write_line(
+            'raise ClientError(response=response, message="Unhandled client error", status_code=response.status_code)'
+        )
+        writer.dedent()
+        writer.write_line("case _ if 500 <= response.status_code < 600:")
+        writer.indent()
+        writer.write_line(
+            'raise ServerError(response=response, message="Unhandled server error", status_code=response.status_code)'
+        )
+        writer.dedent()
 
         # Handle default case
         default_response = next((r for r in op.responses if r.status_code == "default"), None)
         if default_response:
+            if default_response.content and strategy.return_type != "None":
+                # A `default` response with content only stands in for undeclared success statuses
+                context.add_import(f"{context.core_package_name}.exceptions", "HTTPError")
+                writer.write_line("case _ if response.status_code < 200 or response.status_code >= 300:")
+                writer.indent()
+                writer.write_line(
+                    'raise HTTPError(response=response, message="Default error", status_code=response.status_code)'
+                )
+                writer.dedent()
             writer.write_line("case _:  # Default response")
             writer.indent()
             if default_response.content and strategy.return_type != "None":
